@@ -167,7 +167,7 @@ impl Prop for Texts {
         800
     }
     fn cases(&self, tier: Tier) -> u64 {
-        tier.pick(600_000, 12_000_000)
+        tier.pick(600_000, 40_000_000)
     }
     fn generate(&self, g: &mut Gen) -> TextCase {
         let text = match g.weighted(&[3, 4, 3]) {
